@@ -394,6 +394,23 @@ function withJsdoc(src, rng) { return src.split("\n").map((l) => (/^(type|interf
 export function genRewrite(rng, params) {
   const p = genProg(rng);
   const nvals = Number(params[0] || 12);
+  if (rng.chance(1, 12)) {
+    // a discriminated union whose tags are written through aliases: a variant selected by SEVERAL tags (`kind: "circle" | "disc"`)
+    // with some of the tags, or a sub-union of them, named (`type Circle = "circle"; kind: Circle | "disc"`)
+    const key = rng.pick(["kind", "t"]);
+    const L = (v) => [A("lit"), [A("s"), v]];
+    const tagsA = rng.pick([["circle", "disc"], ["circle", "disc", "oval"]]), tagB = "square";
+    const mkU = (ms) => (ms.length === 1 ? ms[0] : [A("union"), ...ms]);
+    const varA = (tag) => [A("obj"), [[key, A("false"), tag], ["r", A("false"), A("number")]], A("none")];
+    const varB = [A("obj"), [[key, A("false"), L(tagB)], ["side", A("false"), A("number")]], A("none")];
+    const p1 = [p[0], [], [["EX", [A("union"), varA(mkU(tagsA.map(L))), varB]]]];
+    const how = rng.below(3);
+    const decls = how === 0 ? tagsA.map((t, i) => [A("alias"), "Tg" + i, [], L(t)]) : how === 1 ? [[A("alias"), "Tg0", [], L(tagsA[0])]] : [[A("alias"), "Round", [], mkU(tagsA.slice(0, 2).map(L))]];
+    const tagQ = how === 0 ? mkU(tagsA.map((_, i) => [A("ref"), "Tg" + i])) : how === 1 ? mkU([[A("ref"), "Tg0"], ...tagsA.slice(1).map(L)]) : mkU([[A("ref"), "Round"], ...tagsA.slice(2).map(L)]);
+    const q1 = [p[0], decls, [["EX", [A("union"), varA(tagQ), varB]]]];
+    const vals = [...tagsA.map((t) => ({ [key]: t, r: 1 })), { [key]: tagB, side: 2 }, { [key]: tagsA[0], side: 2 }, { [key]: "zz", r: 1 }, { r: 1 }, { [key]: tagsA[1], r: "x" }, 1, null, "circle"];
+    return [A("rewrite"), A(String(counter++)), p1, [["entry.ts", tsOfProg(p1)]], vals.map(encVal), q1, [["entry.ts", tsOfProg(q1)]], [A("intro-alias")]];
+  }
   if (rng.chance(1, 10)) {
     // a tuple that reaches the semantic engine BY NAME (Exclude, indexed access, a conditional type) against the same tuple
     // written in place: a named tuple without a rest element is as closed as an inline one
